@@ -192,7 +192,7 @@ LegacyFile(st, e) ==
   ELSE {Out(PutObj(st, e.b, e.n, [content |-> e.content, md5 |-> <<>>, attrs |-> EmptyAttrs, meta |-> <<>>, gen |-> e.gen, metagen |-> e.metagen]),
             [codes |-> {0}, ok |-> TRUE])}
 
-Step(st, e) ==
+Step1(st, e) ==
   CASE e.ev = "CreateBucket" -> CreateBucket(st, e)
     [] e.ev = "GetBucket"    -> GetBucket(st, e)
     [] e.ev = "DeleteBucket" -> DeleteBucket(st, e)
@@ -209,6 +209,16 @@ Step(st, e) ==
     [] e.ev = "Restart"      -> Restart(st, e)
     [] e.ev = "LegacyFile"   -> LegacyFile(st, e)
     [] OTHER -> {}
+
+(********************************* batch ************************************)
+(* POST /batch/storage/v1: the parts are executed one after the other, each on the state the previous one left,    *)
+(* and answered in the same order (a failing part does not stop the batch); the batch itself answers 200.          *)
+RECURSIVE BatchFrom(_, _, _, _)
+BatchFrom(st, parts, i, acc) ==
+  IF i > Len(parts) THEN {Out(st, [codes |-> {200}, ok |-> TRUE, parts |-> acc])}
+  ELSE UNION { BatchFrom(o.st, parts, i + 1, Append(acc, o.resp)) : o \in Step1(st, parts[i]) }
+
+Step(st, e) == IF e.ev = "Batch" THEN BatchFrom(st, e.parts, 1, <<>>) ELSE Step1(st, e)
 
 (***************************************************************************)
 (* Design invariants / laws (checked by TLC on the bounded models)         *)
